@@ -495,7 +495,7 @@ impl Track {
             for j in 0..len {
                 if (j % freq) == 0 {
                     let v = high.wrapping_sub(low) as f32 * (j as f32 / len as f32) + low as f32;
-                    let v = value_range(0, v as isize, 0x7f7f);
+                    let v = value_range(0, v as isize, 0x3fff); // a bend value has 14 bits
                     let e = Event::pitch_bend(seg_start.wrapping_add(j), self.channel, v);
                     self.events.push(e);
                 }
